@@ -83,8 +83,8 @@ impl Property for C15 {
 
     fn runs(&self, tier: Tier) -> u64 {
         match tier {
-            Tier::Quick => 4 * 60,
-            Tier::Thorough => 4 * 5000,
+            Tier::Quick => 4 * 1500,
+            Tier::Thorough => 4 * 60_000,
         }
     }
 
